@@ -3,6 +3,7 @@
 HARNESSES = {
     'mc_hash': dict(src=['mc_hash.c'], flavour='asan'),
     'mc_logmath': dict(src=['mc_logmath.c'], flavour='asan'),
+    'mc_fsg': dict(src=['mc_fsg.c'], flavour='asan'),
     'mc_fe': dict(src=['mc_fe.c'], flavour='asan'),
     'mc_endpointer': dict(src=['mc_endpointer.c'], flavour='asan', ldflags=['-Wl,--wrap=vad_classify']),
 }
@@ -57,7 +58,32 @@ def _fe_runs(tier):
     return r
 
 
+def _fsg_runs(tier):
+    if tier == 'quick':
+        return [dict(h='mc_fsg', label='fsg-3states-3arcs-shard%d' % i, args=['--states', '3', '--arcs', '3', '--shard', '%d/16' % i])
+                for i in range(16)]
+    return ([dict(h='mc_fsg', label='fsg-3states-4arcs-shard%d' % i, args=['--states', '3', '--arcs', '4', '--shard', '%d/32' % i])
+             for i in range(32)]
+            + [dict(h='mc_fsg', label='fsg-4states-3arcs-shard%d' % i, args=['--states', '4', '--arcs', '3', '--shard', '%d/16' % i])
+               for i in range(16)])
+
+
 CHECKS = {
+    'C13': dict(
+        title='grammar transformations and FSG files preserve the grammar',
+        level='exploration',
+        runs={'quick': _fsg_runs('quick'), 'thorough': _fsg_runs('thorough')},
+        budget_s={'quick': 300, 'thorough': 3000},
+        coverage=ex_cov,
+        rule='every finite-state grammar with 1..N states, every start/final choice, every MULTISET of 0..A arcs from '
+             '{from,to} x {a,b,eps} x {1,0.5,1e-8}, language weight {1,6.5} (N=3,A=3 quick; N=3,A=4 and N=4,A=3 thorough), built through '
+             'the public fsg_model API; closure (x2), add_silence (x2), add_alt, closure, write->read applied; oracle: tropical-semiring '
+             'evaluation of the arc list (accepted set + best log-probability of all 31 strings over {a,b} up to length 4), closure '
+             'completeness, idempotence, round-trip equality to printed precision. non-trivial = the grammar accepts at least one '
+             'string; every enumerated (grammar, lw) is distinct by construction',
+        assumptions=['strings longer than 4 words are not compared (grammars have at most 4 states, so every simple path is covered)',
+                     'log base 1.0001 as in the decoder'] + TRUST,
+    ),
     'C06': dict(
         title='acoustic features do not depend on chunking, output limits or sample encoding',
         level='model_checking',
@@ -125,6 +151,13 @@ CHECKS = {
 PENDING_REASON = {}
 
 MANIFEST_TEXT = {
+    'C13': dict(
+        text='Bounded exhaustive enumeration of grammars as programs: all FSGs up to 3 states / 3 arcs (quick) or 3/4 and 4/3 '
+             '(thorough), as multisets so duplicate arcs, self-loops, null chains and cycles and unreachable states all occur, '
+             'each run through the real transformations and the real writer/reader and judged by an independent tropical-semiring '
+             'evaluator on arc lists. The transformations are local rewrites on arcs, so small grammars exercise every rewrite case.',
+        design_ref='DESIGN.md section 2, H6', technique='bounded exhaustive enumeration of grammars with a reference evaluator',
+        note='two real words, three probabilities, two language weights; comparison on strings up to length 4'),
     'C06': dict(
         text='Explicit-state model checking of the real front end with analysis windows shrunk to a few samples, so that the '
              'reachable canonical states under ALL sequences of processing calls (11 chunk lengths x 3 output limits, re-offering '
